@@ -42,7 +42,7 @@ type msgCase struct {
 	Msg    protocol.Message
 	TypeID uint // the message-type id of the protocol specification (harness table, not read from the message)
 	Decode decodeFn
-	Want   protocol.Message           // expected decoded value when it legitimately differs from Msg (documented normalisation); nil = Msg
+	Want   protocol.Message                  // expected decoded value when it legitimately differs from Msg (documented normalisation); nil = Msg
 	Extra  func(dec protocol.Message) string // additional expectations (accessors over unexported state, independent wire checks)
 	Desc   string
 	// skipDeep: the constructor argument is an opaque `any` in caller form that
